@@ -44,6 +44,9 @@ CLAIMED = {
  "C16": dict(engine="E1", design="§5 C16", technique="bounded exhaustive enumeration of identifiers through the real parser vs vendored serde_derive case.rs (reference model)",
      text="Every legal identifier up to length 7 over character-class representatives (and length 5 over second representatives, plus a dictionary) is run through parser::parse under each rename_all rule in field and variant position and compared with serde_derive's own algorithm; exhaustive within the bound, no sampling.",
      note="Trusted: the vendored copy of serde_derive 1.0.214 case.rs; identifiers longer than the bound are covered only by the transducer-size argument."),
+ "C17": dict(engine="E2+S-cli", design="§5 C17", technique="explicit-state breadth-first search to closure over the states of the output location; every transition executes the real binary",
+     text="Per (language, mode) the reachable states of the output location (file → bytes) under the actions `run the binary on source-tree version v` (5 versions and 5 graphs in quick; 7 versions × 6 languages × single/multi in thorough) are explored to closure from the empty location and from one pre-filled with foreign bytes. Every transition checks: exit status as for a fresh run, fresh content for every file the run is responsible for, unchanged bytes keep their mtime, a failing run changes nothing.",
+     note="Closure covers histories of every length over the fixed version alphabet; other source versions are not explored. mtimes are normalised before each step."),
  "C18": dict(engine="E1", design="§5 C18", technique="bounded exhaustive enumeration of integer windows against literal limits",
      text="Every integer within 2^16 (quick) / 2^20 (thorough) of zero, every power of two and every type/range limit, plus all u32/i32 values (thorough), is pushed through every public conversion, comparison and serde_json path of U53/I54 and judged against independently written limits.",
      note="Values outside the windows are not visited; random draws are deliberately not used."),
@@ -77,6 +80,7 @@ def main():
                "source_commits":["9df0e9a","0d72a46","3c9be5a"],"add_only":True},
       "engines":[
         {"name":"E3","path":"/verif/models/WalkCollect.tla + /verif/mc/src/e3.rs","serves_properties":["C06","C07"],"kind_free_text":"TLA+ protocol model checked and dumped by TLC; every maximal path replayed as a forced schedule on the real binary through the cfg(typeshare_verif) hooks"},
+        {"name":"E2","path":"/verif/mc/src/props/c17.rs","serves_properties":["C17"],"kind_free_text":"explicit-state BFS with visited set over real file-system states; transitions run the real binary"},
         {"name":"S-cli","path":"/verif/mc/src/cli.rs","serves_properties":["C06","C07","C08","C14","C17","C20"],"kind_free_text":"the real typeshare binary (hooks-on build) as a subprocess on scratch trees with a watchdog"},
         {"name":"E1","path":"/verif/mc/src/explore.rs","serves_properties":sorted(k for k,v in CLAIMED.items() if "E1" in v["engine"]),"kind_free_text":"stateless choice-sequence explorer (product / deviation-bounded), every case executed on the real code and judged by a reference model"},
       ],
